@@ -152,9 +152,29 @@ pub fn write_pinned_sized(dir: &Path, seed: u64, big: bool, huge: usize) -> anyh
 /// Open a (scratch copy of a) directory with the CURRENT code and compare with the expectation;
 /// then append to every chain.
 pub fn verify_dir(src: &Path, exp: &Expected, cov: &mut Cov, label: &str) -> Result<(), String> {
-    let d = ScratchDir::new("c19");
-    copy_dir(src, d.path()).map_err(|e| format!("copy: {e}"))?;
-    let mut subj = Subject::open_dir(Kind::SQL_LIB, Config::default(), d).map_err(|e| format!("[{label}] the current code cannot open the directory: {e:#}"))?;
+    // how the upgraded server reaches the directory: directly through the library, through a
+    // symbolic link (a volume mounted elsewhere), or as the web server with an allow-list that names
+    // the stored clients
+    let how = label.bytes().fold(exp.clients.len() as u64, |a, b| a.wrapping_mul(31).wrapping_add(b as u64)) % 3;
+    let outer = ScratchDir::new("c19");
+    let real = outer.path().join("data");
+    std::fs::create_dir_all(&real).map_err(|e| format!("mkdir: {e}"))?;
+    copy_dir(src, &real).map_err(|e| format!("copy: {e}"))?;
+    let open_path = if how == 1 {
+        let link = outer.path().join("via-link");
+        std::os::unix::fs::symlink(&real, &link).map_err(|e| format!("symlink: {e}"))?;
+        link
+    } else {
+        real.clone()
+    };
+    let label = &format!("{label}, opened {}", ["through the library", "through a symbolic link to the directory", "by the web server with an allow-list naming its clients"][how as usize]);
+    cov.hit(format!("opened:{}", ["library", "via-symlink", "web-server-with-allow-list"][how as usize]));
+    let kind = if how == 2 { Kind::SQL_HTTP } else { Kind::SQL_LIB };
+    // (the inner handle does not own the files; `outer` removes them)
+    let mut subj = Subject::open_dir(kind, Config::default(), ScratchDir(open_path)).map_err(|e| format!("[{label}] the current code cannot open the directory: {e:#}"))?;
+    if how == 2 {
+        subj.reconfigure(Config::default(), Some(exp.clients.iter().map(|c| c.id).collect()));
+    }
     for c in &exp.clients {
         // client record through the storage API
         let rec = {
